@@ -443,6 +443,13 @@ func judgeCookie(w *core.W, c *cookieCase) {
 			ck.Partitioned = true
 		case "samesite-none":
 			ck.SameSite = http.SameSiteNoneMode
+		case "quoted":
+			ck.Quoted = true // (go1.23) the value travels between double quotes; it is the same value
+		case "raw-and-unparsed":
+			ck.Raw, ck.Unparsed, ck.RawExpires = "other=1", []string{"x=y"}, "yesterday" // fields net/http fills when it parses; meaningless when writing
+		case "max-age-negative":
+			ck.MaxAge = 0
+			ck.HttpOnly, ck.Secure = true, true
 		}
 		ctx.SetCookie(ck)
 		// what is queued for the client is not what the client sent: reading in the same request still reads the request
@@ -632,7 +639,7 @@ func runC18(r *core.Run) {
 		}
 		c := &cookieCase{Name: []string{"n", "sess-id", "a.b", "session", "cart+items", "a!b", "x#y$z", "p%q", "m&n", "it's", "s*", "c^d", "b`t", "u|v", "t~_-.", "__Host-sess", "__Secure-id", "_ga"}[rng.Intn(18)], Value: core.B(b), Extra: rng.Intn(3) == 0}
 		if rng.Intn(6) == 0 {
-			c.Attr = []string{"domain-port", "domain-scheme", "path-semicolon", "expires-1500", "partitioned-insecure", "samesite-none"}[rng.Intn(6)]
+			c.Attr = []string{"domain-port", "domain-scheme", "path-semicolon", "expires-1500", "partitioned-insecure", "samesite-none", "quoted", "quoted", "raw-and-unparsed", "max-age-negative"}[rng.Intn(10)]
 		}
 		if rng.Intn(6) == 0 {
 			c.Junk = []string{"|;", "|; ", "; |", ";|;", "|; ;", "novalue; |", "bad name=1; |", "=x; |", "|; q=\"open", "|; =", "a b; |; c d", "\x01=1; |", "|;;;", " |  "}[rng.Intn(14)]
